@@ -2,8 +2,11 @@ package engine
 
 import (
 	"fmt"
+	"math/big"
 	"os"
+	"reflect"
 	"sort"
+	"strings"
 	"sync"
 	"time"
 )
@@ -83,6 +86,7 @@ type Stats struct {
 	Samples                                  [][]string
 	ConfValidated                            int
 	confPaths                                [][]uint16
+	ConfRefusals                             int // refused operations appended to conformance paths
 	Trace                                    map[string]string // path -> outcome and successor hash (TraceAll)
 }
 
@@ -110,12 +114,113 @@ func keyOf(w *World, n *Node) [32]byte {
 	for i := 0; i < 8; i++ {
 		clock[4+i] = byte(ts >> (8 * i))
 	}
+	// the whole reference model is part of the key (DeepString), not only what a driver lists in Key():
+	// two paths that reach the same storage with different model states must not be merged
+	ms := []byte(DeepString(n.M))
 	if ck, ok := n.M.(interface {
 		ClockKey(dh uint32, dts uint64) []byte
 	}); ok {
-		return w.StateHash(n.L, n.M.Key(), ck.ClockKey(h, ts))
+		return w.StateHash(n.L, n.M.Key(), ck.ClockKey(h, ts), ms)
 	}
-	return w.StateHash(n.L, n.M.Key(), clock[:])
+	return w.StateHash(n.L, n.M.Key(), clock[:], ms)
+}
+
+// DeepString renders any value structurally and deterministically: pointers are followed, map keys
+// sorted, unexported fields included. A model may exclude itself from the key with a method
+// `KeyOpaque()` (none does today).
+func DeepString(v any) string {
+	var b strings.Builder
+	deepWrite(&b, reflect.ValueOf(v), 0)
+	return b.String()
+}
+
+func deepWrite(b *strings.Builder, v reflect.Value, depth int) {
+	if depth > 12 {
+		b.WriteString("...")
+		return
+	}
+	if !v.IsValid() {
+		b.WriteString("nil")
+		return
+	}
+	switch v.Kind() {
+	case reflect.Ptr, reflect.Interface:
+		if v.IsNil() {
+			b.WriteString("nil")
+			return
+		}
+		if v.Kind() == reflect.Ptr && v.Type() == reflect.TypeOf((*big.Int)(nil)) && v.CanInterface() {
+			b.WriteString(v.Interface().(*big.Int).String())
+			return
+		}
+		deepWrite(b, v.Elem(), depth+1)
+	case reflect.Struct:
+		if v.Type() == reflect.TypeOf(big.Int{}) {
+			// sign and magnitude words
+			fmt.Fprintf(b, "big{%v %v}", v.Field(0).Bool(), v.Field(1).Len())
+			for i := 0; i < v.Field(1).Len(); i++ {
+				fmt.Fprintf(b, " %x", v.Field(1).Index(i).Uint())
+			}
+			return
+		}
+		b.WriteString("{")
+		for i := 0; i < v.NumField(); i++ {
+			b.WriteString(v.Type().Field(i).Name)
+			b.WriteString(":")
+			deepWrite(b, v.Field(i), depth+1)
+			b.WriteString(" ")
+		}
+		b.WriteString("}")
+	case reflect.Map:
+		keys := make([]string, 0, v.Len())
+		vals := map[string]reflect.Value{}
+		it := v.MapRange()
+		for it.Next() {
+			var kb strings.Builder
+			deepWrite(&kb, it.Key(), depth+1)
+			keys = append(keys, kb.String())
+			vals[kb.String()] = it.Value()
+		}
+		sort.Strings(keys)
+		b.WriteString("map[")
+		for _, k := range keys {
+			b.WriteString(k)
+			b.WriteString("=")
+			deepWrite(b, vals[k], depth+1)
+			b.WriteString(" ")
+		}
+		b.WriteString("]")
+	case reflect.Slice, reflect.Array:
+		if v.Kind() == reflect.Slice && v.IsNil() {
+			b.WriteString("[]")
+			return
+		}
+		if v.Type().Elem().Kind() == reflect.Uint8 {
+			b.WriteString("x")
+			for i := 0; i < v.Len(); i++ {
+				fmt.Fprintf(b, "%02x", v.Index(i).Uint())
+			}
+			return
+		}
+		b.WriteString("[")
+		for i := 0; i < v.Len(); i++ {
+			deepWrite(b, v.Index(i), depth+1)
+			b.WriteString(" ")
+		}
+		b.WriteString("]")
+	case reflect.String:
+		fmt.Fprintf(b, "%q", v.String())
+	case reflect.Bool:
+		fmt.Fprintf(b, "%v", v.Bool())
+	case reflect.Int, reflect.Int8, reflect.Int16, reflect.Int32, reflect.Int64:
+		fmt.Fprintf(b, "%d", v.Int())
+	case reflect.Uint, reflect.Uint8, reflect.Uint16, reflect.Uint32, reflect.Uint64, reflect.Uintptr:
+		fmt.Fprintf(b, "%d", v.Uint())
+	case reflect.Float32, reflect.Float64:
+		fmt.Fprintf(b, "%g", v.Float())
+	default:
+		fmt.Fprintf(b, "<%s>", v.Kind())
+	}
 }
 
 func rootNode(d Driver, w *World) *Node {
@@ -437,13 +542,16 @@ func ReplayOps(mk func() Driver, ops []int) (*Violation, []string) {
 // Conformance replays the selected explored paths on the block executor. Paths that end in
 // a (known) violation are replayed up to and including the violating call.
 func Conformance(mk func() Driver, st *Stats, o Options) {
-	paths := st.confPaths
+	// violating paths first: the cap below must never cut them
+	var paths [][]uint16
 	for _, v := range st.Violations {
 		paths = append(paths, toU16(v.Ops))
 	}
-	if len(paths) > o.ConfCap+len(st.Violations)+len(st.KnownExample) {
-		paths = paths[:o.ConfCap]
+	keep := st.confPaths
+	if len(keep) > o.ConfCap+len(st.KnownExample) {
+		keep = keep[:o.ConfCap]
 	}
+	paths = append(paths, keep...)
 	var wg sync.WaitGroup
 	var mu sync.Mutex
 	var idx, ok int
@@ -477,13 +585,44 @@ func Conformance(mk func() Driver, st *Stats, o Options) {
 				x := &Exec{W: w, Record: true}
 				n := rootNode(d, w)
 				var names []string
+				refused := 0
 				for _, op := range paths[j] {
 					names = append(names, d.OpName(n, int(op)))
 					r := d.Step(x, &Node{L: n.L, H: n.H, TS: n.TS, M: n.M.Clone()}, int(op))
 					if r.V != nil {
-						break // trace up to the violating call has been recorded
+						n = nil // trace up to the violating call has been recorded; nothing is appended after it
+						break
 					}
 					n = r.Next
+				}
+				// refusals never lead to a new state and so never lie on a representative path: append, at the
+				// end state, a rotating sample of the operations that are refused there (they chain linearly,
+				// a refusal changes nothing), so that faults, `false` results and their atomicity are also
+				// compared with real signed blocks
+				if clean(n) {
+					tried := 0
+					here := keyOf(w, n)
+					for k := 0; k < d.NumOps() && tried < refusalsPerPath; k++ {
+						op := (k*7 + j*13 + int(o.Seed)) % d.NumOps()
+						if !d.Enabled(n, op) {
+							continue
+						}
+						mark := len(x.Trace)
+						r := d.Step(x, &Node{L: n.L, H: n.H, TS: n.TS, M: n.M.Clone()}, op)
+						if r.V == nil && len(r.Soft) == 0 && r.Next != nil && len(x.Trace) == mark+1 && keyOf(w, r.Next) == here && w.signable(x.Trace[mark].Call.Signers) {
+							names = append(names, d.OpName(n, op)+" (refused)")
+							tried++
+							refused++
+							continue
+						}
+						// not a refusal: leave it out of the linear trace
+						x.Trace = x.Trace[:mark]
+						for k := range x.Dumps {
+							if k >= mark {
+								delete(x.Dumps, k)
+							}
+						}
+					}
 				}
 				msg := w.ReplayOnBlocks(x.Trace, x.Dumps)
 				w.Close()
@@ -492,6 +631,7 @@ func Conformance(mk func() Driver, st *Stats, o Options) {
 				}
 				mu.Lock()
 				ok++
+				st.ConfRefusals += refused
 				mu.Unlock()
 			}
 		}()
@@ -502,6 +642,11 @@ func Conformance(mk func() Driver, st *Stats, o Options) {
 	}
 	st.ConfValidated = ok
 }
+
+// refusalsPerPath bounds the refused operations appended to one conformance path.
+const refusalsPerPath = 6
+
+func clean(n *Node) bool { return n != nil && n.L != nil }
 
 // Tier helpers
 
